@@ -72,3 +72,39 @@ Theorem emitted_reader_with_retract_exact (n : nat) (file : list N) (ops : list 
   Reader2.run n file ops (Reader2.init n file) = Reader2.spec file ops 0.
 Proof. intros Hn Hf. exact (Reader2.emitted_reader_with_retract n Hn file Hf ops). Qed.
 Print Assumptions emitted_reader_with_retract_exact.
+
+(* ---- characters: the UTF-8 decoding done by the emitted reader's Next, on the tables translated from input.go.tmpl ---- *)
+From Verif Require Reg.Utf8.
+From VerifGen Require Utf8Go.
+
+Definition emitted_decode : list N -> Utf8.dres :=
+  Utf8.decode Utf8Go.u_first Utf8Go.u_accept Utf8Go.u_xx Utf8Go.u_as Utf8Go.u_locb Utf8Go.u_hicb
+              Utf8Go.u_maskx Utf8Go.u_mask2 Utf8Go.u_mask3 Utf8Go.u_mask4.
+
+Lemma all_scalars_checked :
+  Utf8.all_scalars_ok Utf8Go.u_first Utf8Go.u_accept Utf8Go.u_xx Utf8Go.u_as Utf8Go.u_locb Utf8Go.u_hicb
+                      Utf8Go.u_maskx Utf8Go.u_mask2 Utf8Go.u_mask3 Utf8Go.u_mask4 = true.
+Proof. vm_compute. reflexivity. Qed.
+
+(* EVERY Unicode scalar value, followed by anything: the character and the number of bytes of its encoding *)
+Theorem every_character_is_decoded :
+  forall c rest, Utf8.scalar c = true ->
+    emitted_decode (Utf8.encode c ++ rest) = Utf8.DOk c (length (Utf8.encode c)).
+Proof. intros c rest. exact (Utf8.decode_encode _ _ _ _ _ _ _ _ _ _ all_scalars_checked c rest). Qed.
+Print Assumptions every_character_is_decoded.
+
+(* hence every text of scalar values, of any length, is read back character by character *)
+Theorem every_text_is_read_back :
+  forall cs, forallb Utf8.scalar cs = true ->
+    forall fuel, (length cs < fuel)%nat ->
+      Utf8.decode_all Utf8Go.u_first Utf8Go.u_accept Utf8Go.u_xx Utf8Go.u_as Utf8Go.u_locb Utf8Go.u_hicb
+                      Utf8Go.u_maskx Utf8Go.u_mask2 Utf8Go.u_mask3 Utf8Go.u_mask4 fuel (flat_map Utf8.encode cs) = Some cs.
+Proof. intros cs. exact (Utf8.decode_all_encode_all _ _ _ _ _ _ _ _ _ _ all_scalars_checked cs). Qed.
+Print Assumptions every_text_is_read_back.
+
+Example decoding_examples :
+  emitted_decode [240; 159; 152; 128; 65]%N = Utf8.DOk 128512 4 /\        (* U+1F600 *)
+  emitted_decode [237; 160; 128]%N = Utf8.DInvalid /\                      (* an encoded surrogate *)
+  emitted_decode [192; 128]%N = Utf8.DInvalid /\                           (* an overlong form *)
+  emitted_decode [226; 130]%N = Utf8.DEof.                                 (* cut off by the end of the input *)
+Proof. vm_compute. repeat split; reflexivity. Qed.
